@@ -28,7 +28,7 @@
    until the first circular error that is not swallowed.  The result of a unit is
    `Done None` or `Done (Some i)`: i = index of the request that got the circular error, i.e.
    the position of the unit's CircularDependency diagnostic. *)
-From Coq Require Import List Arith Bool Lia PArith FMapPositive.
+From Coq Require Import List Arith Bool Lia PArith FMapPositive Relations.
 Import ListNotations.
 
 Definition req := (nat * bool)%type.   (* target unit, swallow *)
@@ -320,6 +320,39 @@ Definition wf_depsb (deps : list (list req)) : bool :=
 (* static request graph *)
 Definition dep_edge (deps : list (list req)) (u v : nat) : Prop := exists sw, In (v, sw) (nth u deps []).
 
+(* the par_iter item list: every unit of the project (in any order) *)
+Definition todo_ok (n : nat) (td : list nat) : Prop := forall u, In u td <-> u < n.
+
+(* number of steps of a run *)
+Inductive reach_in (deps : list (list req)) (cbo : bool) (s0 : state) : nat -> state -> Prop :=
+| reach_in_0 : reach_in deps cbo s0 0 s0
+| reach_in_S : forall k s s', reach_in deps cbo s0 k s -> In s' (succs deps cbo s) ->
+                              reach_in deps cbo s0 (S k) s'.
+
+Definition all_frames (s : state) : list frame := flat_map t_stack (threads s).
+
+(* a lock only ever moves Vacant -> Writing t -> Done c *)
+Definition lock_step (a b : lockst) : Prop :=
+  a = b \/ (a = Vacant /\ exists t, b = Writing t) \/ (exists t c, a = Writing t /\ b = Done c).
+
+(* specification of the circular-dependency flags in terms of the static request graph *)
+Definition acyclic_deps (deps : list (list req)) : Prop :=
+  forall u, ~ Relation_Operators.clos_trans nat (dep_edge deps) u u.
+(* v lies on, or reaches, a request cycle *)
+Definition bad (deps : list (list req)) (v : nat) : Prop :=
+  exists c, Relation_Operators.clos_refl_trans nat (dep_edge deps) v c
+            /\ Relation_Operators.clos_trans nat (dep_edge deps) c c.
+(* no request whose circular error would be discarded can see one *)
+Definition swallow_safe (deps : list (list req)) : Prop :=
+  forall u v, In (v, true) (nth u deps []) -> ~ bad deps v.
+(* the result of unit u: the index of its first request whose target is bad, if any *)
+Definition circ_spec (deps : list (list req)) (u : nat) (c : option nat) : Prop :=
+  match c with
+  | None => forall v sw, In (v, sw) (nth u deps []) -> ~ bad deps v
+  | Some i => exists v sw, nth_error (nth u deps []) i = Some (v, sw) /\ bad deps v
+              /\ forall j w sw', j < i -> nth_error (nth u deps []) j = Some (w, sw') -> ~ bad deps w
+  end.
+
 (* ---------------------------------------------------------------------------------- *)
 (* boolean equality of states (used by the finite sweeps) *)
 Definition opt_eqb (a b : option nat) : bool :=
@@ -403,22 +436,21 @@ Fixpoint collect (fuel : nat) (work : list state) (seen : sset) : option sset :=
     end
   end.
 
-Definition closed (s0 : state) (m : sset) : bool :=
-  smem s0 m &&
-  forallb (fun kv => forallb (fun s' => smem s' m) (succs deps cbo (snd kv))) (PositiveMap.elements m).
-
-(* every state of the set satisfies P *)
-Definition all_states (P : state -> bool) (m : sset) : bool :=
-  forallb (fun kv => P (snd kv)) (PositiveMap.elements m).
+(* one verification pass over the candidate set: it contains s0, every successor of a member
+   is a member, no member is stuck, every final member has the lock vector `expect` *)
+Definition good_state (expect : list lockst) (m : sset) (s : state) : bool :=
+  let ss := succs deps cbo s in
+  forallb (fun s' => smem s' m) ss
+  && (if final s then list_eqb lock_eqb (locks s) expect
+      else match ss with [] => false | _ => true end).
+Definition closed_good (s0 : state) (expect : list lockst) (m : sset) : bool :=
+  smem s0 m && forallb (fun kv => good_state expect m (snd kv)) (PositiveMap.elements m).
 
 (* all interleavings from s0: no stuck state, and every final state has the lock vector `expect` *)
 Definition check_all (fuel : nat) (s0 : state) (expect : list lockst) : bool :=
   match collect fuel [s0] (PositiveMap.empty state) with
   | None => false
-  | Some m =>
-    closed s0 m &&
-    all_states (fun s => negb (stuck deps cbo s)
-                         && (if final s then list_eqb lock_eqb (locks s) expect else true)) m
+  | Some m => closed_good s0 expect m
   end.
 
 (* some reachable state is stuck (witness search for the refutation lemmas) *)
